@@ -1,5 +1,6 @@
 /- Line-protocol handlers for the multiscale model (C15). -/
 import PandoraModel.Model.Multiscale
+import PandoraModel.Model.MultiscaleBlocks
 
 namespace Pandora.Driver.C15
 open Lean (Json)
@@ -17,6 +18,12 @@ def bounds (j : Json) : Except String Json := do
   let ns ← field j "num_scales" >>= natOfJson
   let k ← field j "k" >>= natOfJson
   return ratToJson (boundAfter user f ns k)
+
+def splitOfJson (j : Json) : Except String Blocks.Split := do
+  let g (k : String) : Except String Nat := field j k >>= natOfJson
+  return { startY := ← g "startY", stepY := ← g "stepY", stopYDim := ← g "stopYDim",
+           startX := ← g "startX", stepX := ← g "stepX", stopXDim := ← g "stopXDim",
+           beginY := ← g "beginY", beginX := ← g "beginX" }
 
 def next (j : Json) : Except String Json := do
   let disp ← field j "disp" >>= gridOfJson valOfJson
@@ -36,10 +43,17 @@ def next (j : Json) : Except String Json := do
     (specInterval disp flags w marge f umin umax (zoomIndex rows f i) (zoomIndex cols f jj)).1
   let specMax : Grid Val := (List.range fr).map fun i => (List.range fc).map fun jj =>
     (specInterval disp flags w marge f umin umax (zoomIndex rows f i) (zoomIndex cols f jj)).2
+  -- optional: the same grids through the block loop of `disparity_range` with the given split literals
+  let blocked : List (String × Json) ← match j.getObjVal? "split" with
+    | .ok sj => do
+      let s ← splitOfJson sj
+      let (bmn, bmx) := nextLevelGridsBlocked s disp flags w marge f umin umax fr fc
+      pure [("blocked_min", gridToJson valToJson bmn), ("blocked_max", gridToJson valToJson bmx)]
+    | .error _ => pure []
   let near := (List.range fr).all (fun i => parentNear rows f i) && (List.range fc).all (fun jj => parentNear cols f jj)
-  return mkObj [("min", gridToJson valToJson mn), ("max", gridToJson valToJson mx),
+  return mkObj ([("min", gridToJson valToJson mn), ("max", gridToJson valToJson mx),
                 ("spec_min", gridToJson valToJson specMin), ("spec_max", gridToJson valToJson specMax),
-                ("parent_near", Json.bool near)]
+                ("parent_near", Json.bool near)] ++ blocked)
 
 def handle (op : String) (j : Json) : Except String Json :=
   match op with
